@@ -112,7 +112,10 @@ func genError(tp *simrt.Tape) *conformancev1.Error {
 	nd := tp.Choose(4, "err.ndetails")
 	for i := 0; i < nd; i++ {
 		var m proto.Message
-		switch tp.Choose(3, "err.detail") {
+		switch tp.Choose(4, "err.detail") {
+		case 3:
+			// a large detail: the end-of-stream message spans several reads / HTTP chunks
+			m = &conformancev1.Header{Name: fmt.Sprintf("big-detail-%d", i), Value: []string{strings.Repeat("0123456789", 200+tp.Choose(600, "err.detail.big"))}}
 		case 0:
 			m = &conformancev1.Header{Name: fmt.Sprintf("detail-%d", i), Value: []string{"a", "b"}}
 		case 1:
